@@ -204,3 +204,17 @@ PROPS["C18"] = {
     "level_text": "monitor on every response of every run + seeded option/host sweep judged against a browser jar",
     "assumptions": COMMON_ASSUMPTIONS + ["hosts with a port, and suffix matches that are not on a label boundary, are asserted only where every reading of 'matching the request host' gives the same Domain"],
 }
+
+PROPS["C15"] = {
+    "level": "exploration",
+    "quick_runs": 400, "quick_budget_s": 150, "thorough_budget_s": 600,
+    "rule": "one run = one world (0-15 skip-auth rules drawn from anchored / unanchored / method-qualified / negated / lower-case-method / legacy patterns, 0-14 trusted networks "
+            "incl. nested, overlapping, single hosts, IPv6, IPv4-mapped prefixes, preflight, reverse-proxy mode) + 150-299 unauthenticated requests over a path alphabet of 25 segments "
+            "(equal to, prefix of, suffix of, containing rule fragments) x 11 methods (incl. lower / mixed case, OPTIONS) x 15 queries that embed rule-like fragments, 30% of them repeated "
+            "with another query (twin), in reverse-proxy worlds with X-Forwarded-Uri as the effective URI + peer addresses = first / last / neighbours of every configured network, a "
+            "strided /22 + /24 + /120 universe and 22 hand-picked boundary addresses, each written as IPv4, ::ffff:a.b.c.d and ::ffff:hhhh:hhhh (via the configured real-client-IP "
+            "header in reverse-proxy mode); oracle: reached upstream / 202 <=> independent rule evaluation on (method, path) or preflight or net.IPNet.Contains(peer); "
+            "non-trivial = at least one request was exempted; distinct = distinct rule/network set + event hash",
+    "level_text": "seeded search over rule sets x (method, path, query, peer address), observed at the upstream",
+    "assumptions": COMMON_ASSUMPTIONS + ["paths are generated free of percent-encoding so that 'the request path' is unambiguous"],
+}
